@@ -58,14 +58,22 @@ func (r *Registry) getByID(id string) Processer {
 }
 
 func (r *Registry) add(proc Processer) {
+	if r.insert(proc) {
+		proc.Start()
+	}
+}
+
+// insert registers the process under its id without starting it. It reports false,
+// and broadcasts an ActorDuplicateIdEvent, when the id is already taken.
+func (r *Registry) insert(proc Processer) bool {
 	r.mu.Lock()
 	id := proc.PID().ID
 	if _, ok := r.lookup[id]; ok {
 		r.mu.Unlock()
 		r.engine.BroadcastEvent(ActorDuplicateIdEvent{PID: proc.PID()})
-		return
+		return false
 	}
 	r.lookup[id] = proc
 	r.mu.Unlock()
-	proc.Start()
+	return true
 }
